@@ -1,16 +1,17 @@
 #!/bin/bash
-# usage: collect2.sh Cnn [extra props]
-p=$1; shift; extra="$@"
-d=/verif/seeded/${p}-a2; mkdir -p $d; cp /tmp/seeded_out2/$p/patch.diff /tmp/seeded_out2/$p/demo.py $d/; cp /tmp/seeded_out2/$p/meta.json $d/agent_meta.json; git -C /repo worktree remove --force /tmp/wt2_$p 2>/dev/null
-python3 - "$p" $extra <<'PY'
+# usage: collect_seed.sh <Cnn> <suffix e.g. a3> <agent outdir root e.g. /tmp/seeded_out3> <worktree prefix e.g. /tmp/wt3_> [extra props expected to catch]
+p=$1; suf=$2; root=$3; wt=$4; shift 4; extra="$@"
+d=/verif/seeded/${p}-${suf}; mkdir -p $d; cp $root/$p/patch.diff $root/$p/demo.py $d/; cp $root/$p/meta.json $d/agent_meta.json
+git -C /repo worktree remove --force ${wt}${p} 2>/dev/null
+python3 - "$p" "$suf" $extra <<'PY'
 import json,sys
-p=sys.argv[1]; extra=sys.argv[2:]
-d=f'/verif/seeded/{p}-a2'
+p,suf=sys.argv[1:3]; extra=sys.argv[3:]
+d=f'/verif/seeded/{p}-{suf}'
 a=json.load(open(d+'/agent_meta.json'))
 m={"property":p,"summary":a.get("summary"),"what_it_needs_to_manifest":a.get("manifests_when"),"files_changed":a.get("files_changed"),
-   "origin":"independent sub-agent (second round: told only the property text and what the first seeded change was)",
+   "origin":"independent sub-agent given only the property text, a scratch worktree and (for later rounds) what the earlier seeded changes were",
    "agent_reported":{"test_suite_result":a.get("test_suite_result"),"demo_with_change_exit":a.get("demo_with_change_exit"),"demo_without_change_exit":a.get("demo_without_change_exit")},
    "demo":"demo.py","demo_pyflags":["-O"] if p=="C15" else [],"checks_expected":[p]+extra,"confirmed_by_me":None,"caught_by":None}
 json.dump(m,open(d+'/meta.json','w'),indent=1)
 PY
-cd /verif && python3 selftest/seeded.py --demo ${p}-a2 2>&1 | grep -E "^\('C|caught|PATCH" | cut -c1-330
+cd /verif && python3 selftest/seeded.py --demo ${p}-${suf} 2>&1 | grep -E "^\('C|caught|PATCH" | cut -c1-330
